@@ -247,6 +247,12 @@ func C11(c *Ctx, r *report.Run) error {
 			mutOnly[s.Name] = true
 		}
 	}
+	// ... and F-pair: two codec features in one message (two discriminated oneofs, a oneof beside a flattened child, ...):
+	// an error in the part decoded first must not be forgotten when a later part decodes cleanly
+	for _, s := range univ.PairSpecs(c.Thorough) {
+		specs = append(specs, s)
+		mutOnly[s.Name] = true
+	}
 	r.Programs = len(specs)
 	w, err := ws.Build(c.Bins, specs, ws.Options{Variant: ws.HC, Tag: "rtHC11", Harness: true})
 	if err != nil {
